@@ -176,5 +176,21 @@ def build(variant="plain", extra_cfg=None, tag=None, cflags_extra=""):
         lockf.close()
 
 
+def build_vitro(bld, asan=True):
+    """links harness/vdrive.c in VITRO mode against this build's static archive (all internal functions callable)."""
+    out = os.path.join(bld.dir, "vinvitro")
+    src = os.path.join(os.path.dirname(os.path.dirname(os.path.abspath(__file__))), "harness", "vdrive.c")
+    if os.path.exists(out) and os.stat(out).st_mtime > os.stat(src).st_mtime:
+        return out
+    san = ["-fsanitize=address,undefined", "-fno-sanitize-recover=all", "-fno-omit-frame-pointer"] if asan else []
+    cmd = ["gcc", "-DVITRO", "-O1", "-g", "-fno-delete-null-pointer-checks", "-fno-builtin-execv", "-fno-builtin-execve"] + san + \
+          ["-rdynamic", "-o", out + ".tmp", src, bld.archive, "-ldl", "-lpthread"]
+    r = subprocess.run(cmd, capture_output=True, text=True)
+    if r.returncode != 0:
+        raise Harness("cannot link the in-vitro harness against %s: %s" % (bld.archive, r.stderr[-1500:]))
+    os.replace(out + ".tmp", out)
+    return out
+
+
 def cleanup_all():
     shutil.rmtree(BUILDS, ignore_errors=True)
